@@ -77,8 +77,15 @@ def main():
         res["demo_fails_with_patch"] = f is not None and f > 0
         r = sh(f"git apply -R {out}/patch.diff", wt, env, log)
         if r.returncode != 0:
-            res["revert_failed"] = True
-            return res
+            # the hook touches neighbouring lines: rebuild the unpatched state from scratch
+            # (clean tracked files, hook only, demonstration placed again)
+            sh("git checkout -- .", wt, env, log)
+            if hook:
+                r = sh(f"git apply {out}/demo_hook.diff", wt, env, log)
+                res["hook_applies_on_clean"] = r.returncode == 0
+            open(dest, "w").write(open(f"{out}/demo.rs").read())
+            with open(os.path.join(wt, opt["--mod-file"]), "a") as fh:
+                fh.write("\n" + opt["--mod-line"].replace("\\n", "\n") + "\n")
         r = sh(f"cargo nextest run --offline --build-jobs 6 --test-threads 4 --no-fail-fast {demo_sel} 2>&1 | tail -60", wt, env, log)
         p, f = counts(r.stdout)
         res["demo_without_patch"] = {"passed": p, "failed": f}
